@@ -259,4 +259,83 @@ def serveFull (rt : Int → Nat → Int → RT) (tr : Transport) (deadline : Opt
 /-- `ServeHTTP` hands `h.ServeHTTP(rw, r)` the request it received: no derived context, no deadline. -/
 def requestDeadline : Option Int := none
 
+/-! ### The response writers between the reverse proxy and the client's connection; informational responses -/
+
+/-- Go's `net/http` server response (`response.WriteHeader` in server.go) as far as the status line goes:
+informational codes (100–199 except 101 Switching Protocols) are written at once and do not finalise the
+response; the first other code is the status of the response; every later call is "superfluous" and ignored. -/
+structure Wire where
+  interims : List Nat     -- informational responses on the wire, in order
+  final : Option Nat      -- the status line of the final response, once written
+deriving DecidableEq, Repr
+
+def Wire.empty : Wire := ⟨[], none⟩
+
+/-- `code >= 100 && code <= 199 && code != StatusSwitchingProtocols` -/
+def informational (code : Nat) : Bool := decide (100 ≤ code) && decide (code ≤ 199) && code != 101
+
+def Wire.writeHeader (w : Wire) (code : Nat) : Wire :=
+  match w.final with
+  | some _ => w
+  | none => if informational code then { w with interims := w.interims ++ [code] } else { w with final := some code }
+
+/-- What the client reads as the status of the response: a handler that returns without a final `WriteHeader`
+(and without a `Write`) gets net/http's implicit `200 OK`. -/
+def Wire.status (w : Wire) : Nat := w.final.getD 200
+
+/-- `proxy.responseWriter` (http_proxy.go): wraps the server's writer to record the status code for metrics and
+the access log. `guard = false` is the source: every `WriteHeader` is passed through and the code recorded.
+`guard = true` is the variant that ignores every call after the first (`if rw.code != 0 { return }`). -/
+structure RW where
+  wire : Wire
+  code : Nat
+deriving DecidableEq, Repr
+
+def RW.new : RW := ⟨Wire.empty, 0⟩
+
+def RW.writeHeaderWith (guard : Bool) (rw : RW) (code : Nat) : RW :=
+  if guard && rw.code != 0 then rw else ⟨rw.wire.writeHeader code, code⟩
+
+def RW.writeHeader : RW → Nat → RW := RW.writeHeaderWith false
+
+/- `gzip.GzipResponseWriter.WriteHeader` (proxy/gzip) sits between `responseWriter` and the reverse proxy when
+`proxy.gzip.contenttype` is configured: informational codes go straight through, the first other code decides
+about compression and goes through as well. For the status line it is the identity; the timing streams run a
+third of their cases with it. -/
+
+/-- What an upstream does with one request: informational responses at once (`interims`), then — `delay` after the
+request — the headers of the final response (`status`), then `body` more nanoseconds of body. -/
+structure Upstream where
+  interims : List Nat
+  status : Nat
+  delay : Int
+  body : Int
+deriving Repr
+
+/-- What the client of the proxy has at the end of one exchange. -/
+structure Exchange where
+  served : Served
+  interims : List Nat    -- informational responses it received before the final one
+  recorded : Nat         -- the code `responseWriter` recorded (metrics, access log)
+deriving DecidableEq, Repr
+
+/-- One request through `httputil.ReverseProxy` and the writers: every informational response of the upstream is
+forwarded with `WriteHeader` (ReverseProxy's `Got1xxResponse` hook) — they arrive before the final headers and do
+not stop the response-header timer of `http.Transport` —, then either the upstream's status is copied or the
+error handler writes the status of the error (`errorStatus`). The status the client reads is what reached the
+wire, not what the handler meant to write. -/
+def exchangeWith (guard : Bool) (rt : Int → Nat → Int → RT) (tr : Transport) (deadline : Option Int) (u : Upstream) : Exchange :=
+  let rw₁ := (u.interims.filter informational).foldl (RW.writeHeaderWith guard) RW.new
+  let s := serveFull rt tr deadline u.status u.delay u.body
+  let rw₂ := RW.writeHeaderWith guard rw₁ s.status
+  { served := { s with status := rw₂.wire.status }, interims := rw₂.wire.interims, recorded := rw₂.code }
+
+def exchange := exchangeWith false
+
+/-- A history of requests through the same proxy and transport (idle keep-alive connections of the earlier
+requests are reused by the later ones): `http.Transport`'s response-header timer is per round trip, the proxy
+keeps no state between requests and sends each request once, so each exchange is what it would be alone. -/
+def serveHistory (rt : Int → Nat → Int → RT) (tr : Transport) (deadline : Option Int) (us : List Upstream) : List Exchange :=
+  us.map (exchange rt tr deadline)
+
 end Fabio.Model.C19
